@@ -66,3 +66,18 @@ Print Assumptions C17_every_h2_exception_on_the_receive_path_is_a_protocol_error
 Print Assumptions C17_priority_frames_never_crash.
 Print Assumptions C17_goaway_frames_never_crash.
 Print Assumptions C17_unknown_frames_never_crash.
+
+(* ... and in every state reachable by any history the two translations hold without side condition *)
+From H2 Require Import Proofs.MfsInv.
+Theorem C17_padding_error_is_translated_in_every_reachable_state :
+  forall cfg os c2 r2, recv_except (run (conn_new cfg) os) (Crash ForeignError) = (c2, r2) -> r2 = perr.
+Proof.
+  intros cfg os c2 r2. apply padding_error_is_translated. pose proof (frame_size_limit_after_any_history cfg os). lia.
+Qed.
+Theorem C17_protocol_errors_pass_through_in_every_reachable_state :
+  forall cfg os e code sid rst c2 r2, recv_except (run (conn_new cfg) os) (Err e code sid rst) = (c2, r2) -> r2 = Err e code sid rst.
+Proof.
+  intros cfg os e code sid rst c2 r2. apply h2_exception_stays_protocol_error. pose proof (frame_size_limit_after_any_history cfg os). lia.
+Qed.
+Print Assumptions C17_padding_error_is_translated_in_every_reachable_state.
+Print Assumptions C17_protocol_errors_pass_through_in_every_reachable_state.
